@@ -4,9 +4,9 @@ import runner_corr
 META = {
     "lean_modules": ["QVerif.Props.C06"],
     "drivers": ["Runner"],
-    "theorems": ['Runner.C06_returned_is_own', 'Runner.C06_log_entries_positional', 'Runner.C06_slice_is_own_results', 'Runner.dinv_reachable', 'Runner.cinv_reachable', 'Runner.step_sound'],
+    "theorems": ['Runner.C06_returned_is_own', 'Runner.C06_log_entries_positional', 'Runner.C06_slice_is_own_results', 'Runner.C06_each_pub_once', 'Runner.C06_handed_at_most_once', 'Runner.account_reachable', 'Runner.dinv_reachable', 'Runner.cinv_reachable', 'Runner.step_sound'],
     "level": "proof",
-    "level_text": 'Proof: inductive invariants CInv+DInv over all reachable states of the runner transition system (any number of threads, calls, pubs, interleavings, f outcomes) give returned_is_own / slice_is_own_results: a returning call holds the outcome of exactly one f call whose batch contains its pubs in order at [idx, idx+n). Tied to the code by lock-step trace conformance of the real run() under a cooperative scheduler.',
+    "level_text": 'Proof: inductive invariants CInv+DInv over all reachable states of the runner transition system (any number of threads, calls, pubs, interleavings, f outcomes) give returned_is_own / slice_is_own_results: a returning call holds the outcome of exactly one f call whose batch contains its pubs in order at [idx, idx+n); a conservation law over all reachable states (account_reachable: logged batches + open batch + not-yet-appended pubs + pubs of future calls = all pubs, as multisets) gives each_pub_once: when all calls have returned, the pubs handed to f over all its invocations are exactly the submitted pubs, each once, and at no moment more often (handed_at_most_once). Tied to the code by lock-step trace conformance of the real run() under a cooperative scheduler.',
     "level_note": "Trusted: Lean kernel + propext/Classical.choice/Quot.sound; the hand-written transition system Model/Runner.lean is tied to "
     "mutex_primitives.py by the sampled lock-step conformance only; semantics of threading.Lock/Condition as modelled by the cooperative "
     "primitives; scheduler fairness for liveness; the wrapped primitive returns or raises.",
